@@ -265,6 +265,52 @@ let c19_oracle (ops : op list) (obs : string list) : string =
     else "pass"
   | _ -> "skip shape"
 
+(* ---- C11: kill at any point; direct-mode records whose log call returned survive; restart is clean ---- *)
+let c11_oracle (ops : op list) (obs : string list) : string =
+  if List.length ops <> List.length obs then "fail observation-shape" else
+  (* records: (payload, mandatory) - acknowledged before the kill in direct mode, or logged after the restart *)
+  let recs = ref [] and cfg = ref None and live = ref false and dead = ref false and after = ref false in
+  let last = ref None and never = ref true and bad = ref "" in
+  List.iter2 (fun op ob ->
+      (match op with
+       | OStart c -> cfg := Some c; live := true;
+         (match c.c_rot with Some ((_, _), KNever) | None -> () | _ -> never := false);
+         if !after && ob <> "r0" then bad := "restart-fails-on-the-directory-the-kill-left"
+       | OCrash -> dead := false; after := true; live := false
+       | OWrite b | OPlain b ->
+         if !live then begin
+           let acked = (ob = "r0") in
+           let direct = (match !cfg with Some c -> c.c_cap = None && not c.c_async | None -> false) in
+           if ob = "x" then dead := true;
+           if !after && ob <> "r0" && !bad = "" then bad := "logging-fails-after-the-restart " ^ ob;
+           recs := (b, (acked && direct && not !dead) || !after) :: !recs
+         end
+       | OStop -> live := false
+       | OSnap -> if is_snapshot ob then last := Some ob
+       | OTrigger | OFlush | OQuery _ -> if !after && (ob = "r2" || ob = "l2[]") && !bad = "" then bad := "panic-after-the-restart"
+       | _ -> ());
+      if ob = "x" then dead := true) ops obs;
+  if !bad <> "" then "fail " ^ !bad else
+  if not !after then "skip no-kill" else
+  match !cfg, !last with
+  | Some c, Some ob ->
+    let snap = parse_snapshot ob in
+    let stream = ref (stream_of c snap) in
+    let rs = List.rev !recs in
+    let rec skip_cleaned = function
+      | (b, _) :: r when (not !never) && not (b <> [] && starts_with b !stream) -> skip_cleaned r
+      | l -> l in
+    let rs = skip_cleaned rs in
+    let verdict = ref "" in
+    List.iter (fun (b, must) ->
+        if b <> [] && starts_with b !stream then stream := drop (List.length b) !stream
+        else if b <> [] && must && !verdict = "" then
+          verdict := "acknowledged-or-later-record-missing " ^ hex_of_bytes b) rs;
+    if !verdict <> "" then "fail " ^ !verdict
+    else if !stream <> [] then "fail stream-holds-bytes-that-are-no-record-or-out-of-order"
+    else "pass"
+  | _ -> "skip shape"
+
 let flw_oracle (prop : string) (case_toks : string list) (obs : string list) : string =
   let (pre, ops) = split_at_semicolon [] case_toks in
   let ann = annotations pre in
@@ -274,6 +320,7 @@ let flw_oracle (prop : string) (case_toks : string list) (obs : string list) : s
   if prop = "C06" || prop = "C07" || prop = "C18" then snap_oracle prop ops obs else
   if prop = "C16" then c16_oracle ops obs else
   if prop = "C19" then c19_oracle ops obs else
+  if prop = "C11" then c11_oracle ops obs else
   if prop = "C09" then
     (match last_snapshot obs, case_toks with
      | Some files, t0 :: off :: _ -> c09_oracle (int_of_string t0) (int_of_string off) ann ops files
